@@ -213,6 +213,7 @@ class Inliner:
         while changed and rounds < 6:
             rounds += 1
             env = self._type_env(fn, cls)
+            self._tails = _tail_positions(fn.body)
             fn.body, changed = self._inline_block(fn.body, env, fn, chain)
         # whatever candidate call is left is opaque
         env = self._type_env(fn, cls)
@@ -277,7 +278,11 @@ class Inliner:
                 out.append(s)
                 continue
             try:
-                repl = self._expand(call, tgt, mode, target, s)
+                if mode == 'expr' and id(s) in getattr(self, '_tails', ()):
+                    # last thing the caller does: a `return` of the helper is a `return` of the caller
+                    repl = self._expand(call, tgt, 'tail', target, s)
+                else:
+                    repl = self._expand(call, tgt, mode, target, s)
             except NotInlinable as e:
                 self.notes['opaque'].append(f'{fn.name}: call to {tgt[0]} at line {call.lineno}: {e}')
                 out.append(s)
@@ -437,11 +442,30 @@ class Inliner:
         if mode == 'assign':
             ret_target = target
         elif mode == 'return':
-            ret_target = ast.Name(id='ret' + tag, ctx=ast.Store())
-            r = ast.Return(value=ast.Name(id='ret' + tag, ctx=ast.Load()))
-            post.append(ast.copy_location(r, stmt))
+            pass        # handled below: the helper's returns become the caller's
         ren = _Renamer(subst, rename)
         body = [ren.visit(s) for s in body]
+        if mode in ('tail', 'return'):
+            # the caller returns whatever the helper returns (tail: the value is dropped, the caller returns None)
+            if mode == 'tail':
+                class DropValue(ast.NodeTransformer):
+                    def visit_Return(self, n):
+                        if n.value is None:
+                            return n
+                        out = []
+                        if _contains(n.value, ast.Call):
+                            out.append(ast.copy_location(ast.Expr(value=n.value), n))
+                        out.append(ast.copy_location(ast.Return(value=None), n))
+                        return out
+                body = [x for b in body for x in (lambda r: r if isinstance(r, list) else [r])(DropValue().visit(b))]
+            tail_ret = [] if (body and isinstance(body[-1], ast.Return)) else \
+                [ast.copy_location(ast.Return(value=None), stmt)]
+            out = pre + body + (tail_ret if mode == 'return' else [])
+            if not out:
+                out = [ast.copy_location(ast.Pass(), stmt)]
+            for x in out:
+                ast.fix_missing_locations(x)
+            return out
         conv = self._single_exit(body, [], ret_target, stmt)
         if not conv:
             conv = [ast.copy_location(ast.Pass(), stmt)]
@@ -535,6 +559,25 @@ class Inliner:
                     if isinstance(st, ast.ClassDef) and st.name == c and fn in st.body:
                         st.body.remove(fn)
                         self.notes['removed'].append(f'{c}.{mname}')
+
+
+def _tail_positions(body) -> set:
+    """ids of the statements after which the function ends: the last statement of the body and,
+    through `if` / `with`, the last statements of their blocks."""
+    out = set()
+
+    def rec(stmts):
+        if not stmts:
+            return
+        last = stmts[-1]
+        out.add(id(last))
+        if isinstance(last, ast.If):
+            rec(last.body)
+            rec(last.orelse)
+        elif isinstance(last, ast.With):
+            rec(last.body)
+    rec(body)
+    return out
 
 
 def _always_assigns(stmts, target) -> bool:
